@@ -1,16 +1,13 @@
 SPECIFICATION Spec
 CONSTANTS
   Pairs = {1, 2}
-  MaxModel = 2
+  MaxModel = 1
   FileMode = FALSE
-  MaxOps = 6
+  MaxOps = 4
   Layered = FALSE
-  NObj = 2
-  Deviations = {}
+  NObj = 1
+  Deviations = {"FieldsNotRecomputed"}
 INVARIANT TypeOK
-INVARIANT FreshResults
-INVARIANT CachesCoherent
-INVARIANT TolRestored
 INVARIANT SensAvailable
 PROPERTY CopyIndependent
 CHECK_DEADLOCK FALSE
